@@ -44,6 +44,14 @@ CHECKS = {
    text="MidenVM.tla's decoder (block stack, span rows with group counter / op index / batch flags / alignment NOOPs, RESPAN, REPEAT, END flags, hasher-address counter) is model-checked for every push/non-push pattern (group counter reaches zero, op index in range, NOOPs only where documented, stream = program) and validated row by row against recorded executions of generated programs (all MAST shapes, spans of every fill pattern, loops, calls, dyn): operation, block address, hasher registers, in_span, group_count, op_index, batch flags; the last row must be HALT carrying the program hash. A corrupted recording must be rejected at the corrupted event (binding self-test).",
    note="Trusted: TLC; block hashes are labels taken from the assembled MAST (their recipe is C08).",
    tech="TLA+ decoder spec; TLC model checking + trace validation of recorded decoder columns", ref="DESIGN.md §4 C13"),
+ "C01": dict(cat="model_checking",
+   text="Pipeline.tla models execute -> prove(option set) -> byte transport -> verify; TLC checks Completeness (every honest behaviour is accepted at >= the configured level) over the four standard option sets x transport; each behaviour is a scenario run on the real prover and verifier for generated programs of every feature class (kernels, deep inputs/outputs, range- and chiplet-heavy traces): proving must succeed, the verifier must accept with level >= configured, the proof bytes must decode to an equal proof and the outputs proven must be those execution reported (whose rows are validated against MidenVM.tla in C03).",
+   note="Trusted: TLC; winterfell's STARK soundness/completeness is exercised, not modelled.",
+   tech="TLA+ pipeline model; model behaviours replayed on the real prover/verifier", ref="DESIGN.md §4 C01"),
+ "C02": dict(cat="model_checking",
+   text="Pipeline.tla with tamper actions (program hash element, kernel add/remove/replace, input change/append(incl. explicit zero)/remove, output top/deep element, overflow address, output append/truncate, proof byte flips in 16 regions, truncations, tag relabelling, invalid tag, weaker-than-accepted options); TLC checks Binding (acceptance implies untampered statement, intact proof, accepted options). Every behaviour x several positions is replayed on real proofs for all four option sets with and without the byte round trip: the verifier must return an error, never accept, never panic.",
+   note="Trusted: TLC; a corrupted proof surviving verification by chance (<= 2^-16) would be reported. Bytes appended after a complete proof are recorded, not judged (the decoded proof is the same proof).",
+   tech="TLA+ pipeline model with tamper actions; behaviours replayed on real proofs", ref="DESIGN.md §4 C02"),
 }
 
 NOT_APPLICABLE = {
